@@ -22,12 +22,21 @@ pub fn run(tier: Tier) -> i32 {
         r.found.retain(|f| f.violation.signature.starts_with("C10/") || f.violation.signature.starts_with("panic/"));
         rep.add_dfs(&format!("max_clients={}", m), k, d, &r);
     }
+    // from a non-initial state: three clients connected on a 3-slot server
+    {
+        let d3 = tier.pick(5, 7);
+        let w = HsWorld::new(super::hsworld::c10_prebuilt_fix());
+        let cfg = DfsCfg { depth: d3, threads: explore::threads(), wall_cap_s: tier.pick(100.0, 1500.0), max_signatures: 8 };
+        let mut r = explore::dfs(&w, &cfg);
+        r.found.retain(|f| f.violation.signature.starts_with("C10/") || f.violation.signature.starts_with("panic/"));
+        rep.add_dfs("three-clients-connected-on-3-slots", 2, d3, &r);
+    }
     rep.finish()
 }
 
 pub fn replay(j: &J) -> i32 {
     let idx = j.get("scenario_index").and_then(|x| x.as_i()).unwrap_or(0) as usize;
-    let mut w = HsWorld::new(c10_fix(idx + 1));
+    let mut w = HsWorld::new(if idx == 2 { super::hsworld::c10_prebuilt_fix() } else { c10_fix(idx + 1) });
     let acts: Vec<usize> = j
         .get("actions")
         .and_then(|a| a.as_arr())
